@@ -7,17 +7,29 @@ random.  A body is a list of tuples:
 import itertools
 
 
-def render(body, ind=1, cond="r == 0"):
-    t = "\t" * ind
-    s = ""
-    for st in body:
-        s += render_stmt(st, ind, cond)
-    return s
+SINK = ["r"]   # variable that `use` statements assign to; None: `x = x;` (no other variable needed)
+
+
+def render(body, ind=1, cond="r == 0", sink="r"):
+    old = SINK[0]; SINK[0] = sink
+    try:
+        s = ""
+        for st in body:
+            s += render_stmt(st, ind, cond)
+        return s
+    finally:
+        SINK[0] = old
 
 
 def render_stmt(st, ind, cond="r == 0"):
     t = "\t" * ind
     k = st[0]
+    if SINK[0] is None:
+        if k == 'use': return "%s%s = %s;\n" % (t, st[1], st[1])
+        if k == 'assign': return "%s{\n%s}\n" % (t, t)
+    elif SINK[0] != "r":
+        if k == 'use': return "%s%s = %s;\n" % (t, SINK[0], st[1])
+        if k == 'assign': return "%s%s = %s + 1;\n" % (t, SINK[0], SINK[0])
     if k == 'label': return "%s%s:\n" % (t, st[1])
     if k == 'goto': return "%sgoto %s;\n" % (t, st[1])
     if k == 'cgoto': return "%sif %s\n%s\tgoto %s;\n" % (t, cond, t, st[1])
@@ -26,11 +38,11 @@ def render_stmt(st, ind, cond="r == 0"):
     if k == 'use': return "%sr = %s;\n" % (t, st[1])
     if k == 'assign': return "%sr = r + 1;\n" % t
     if k == 'loop': return "%sloop;\n" % t
-    if k == 'block': return "%s{\n%s%s}\n" % (t, render(st[1], ind + 1, cond), t)
+    if k == 'block': return "%s{\n%s%s}\n" % (t, render(st[1], ind + 1, cond, SINK[0]), t)
     if k == 'if':
-        s = "%sif %s\n%s{\n%s%s}\n" % (t, cond, t, render(st[1], ind + 1, cond), t)
+        s = "%sif %s\n%s{\n%s%s}\n" % (t, cond, t, render(st[1], ind + 1, cond, SINK[0]), t)
         if st[2] is not None:
-            s += "%selse\n%s{\n%s%s}\n" % (t, t, render(st[2], ind + 1, cond), t)
+            s += "%selse\n%s{\n%s%s}\n" % (t, t, render(st[2], ind + 1, cond, SINK[0]), t)
         return s
     if k == 'ifs':
         s = "%sif %s\n%s" % (t, cond, render_stmt(st[1], ind + 1, cond))
